@@ -11,7 +11,7 @@ import (
 // random source is replaced. Paths are canonical leaf paths (echo wrapper stripped); "[*]" matches any index, an
 // explicit index matches only that index. A path matches as a prefix.
 type detLeaf struct {
-	fam  string // protocol family
+	fam  string // protocol family, or a case-name prefix ("rvolesoftspoken/l1")
 	cid  string // "<round>/B" or "<round>/U"
 	path string
 	why  string
@@ -27,7 +27,22 @@ var detLeaves = []detLeaf{
 	{"redistribute", "RedistributeRound2/B", "$>ZeroVerificationVector>verification_vector>data[0]>compressedBytes", "first entry of the AGGREGATED zero-sharing verification vector: identity by construction"},
 	{"redistribute", "RedistributeRound2/B", "$>PrevMSP>", "the previous access structure's MSP: public key material, fixed input"},
 	{"redistribute", "RedistributeRound2/B", "$>PrevVerificationVector>", "the previous verification vector: public key material, fixed input"},
+	// Lindell17 round 4: the Paillier ciphertext c3 is encoded together with the modulus it lives in (N, N^2): the PRIMARY's
+	// public key, fixed key material. The ciphertext value itself ($>c3>c>tag5017>v>value…) is not listed and must change.
+	{"lindell17", "Lindell17Round4/U", "$>c3>c>tag5017>n>", paillierModulus},
+	{"lindell17", "Lindell17Round4/U", "$>c3>c>tag5017>v>modulus>", paillierModulus},
+	{"lindell17", "Lindell17Round4/U", "$>c3>c>tag5017>arithmetic>", paillierModulus},
+	// rVOLE over the OT extension: ATilde[j][i] for i < l is alpha_j0[i] - alpha_j1[i] + a[i], where a is Alice's INPUT and the
+	// alphas are hashes of the extension pads, i.e. of the fixed base seeds, arranged by ONE choice bit of Bob. They carry
+	// none of Alice's randomness and one bit of Bob's (her own samples are the check values aHat: entries i >= l, Eta, Mu).
+	{"rvolesoftspoken/l1", "RVOLESoftspokenRound2/U", "$>ATilde[*][0]>", rvoleInputRow},
+	{"rvolesoftspoken/l2", "RVOLESoftspokenRound2/U", "$>ATilde[*][0]>", rvoleInputRow},
+	{"rvolesoftspoken/l2", "RVOLESoftspokenRound2/U", "$>ATilde[*][1]>", rvoleInputRow},
 }
+
+const paillierModulus = "Paillier modulus (N / N^2) carried inside the ciphertext encoding: public key material, fixed input"
+
+const rvoleInputRow = "input row of ATilde: pad difference (fixed base seeds, one choice bit of the peer) plus Alice's input"
 
 var (
 	detOnce sync.Once
@@ -35,6 +50,7 @@ var (
 )
 
 // deterministicLeaf returns the reason why the leaf may keep its value ("" = it may not). path keeps its indices.
+// fam is the full case name ("lindell22/T23-q12").
 func deterministicLeaf(fam, cid, path string) string {
 	detOnce.Do(func() {
 		for _, d := range detLeaves {
@@ -44,7 +60,7 @@ func deterministicLeaf(fam, cid, path string) string {
 		}
 	})
 	for i, d := range detLeaves {
-		if d.fam == fam && d.cid == cid && detRes[i].MatchString(path) {
+		if (d.fam == fam || strings.HasPrefix(fam, d.fam+"/")) && d.cid == cid && detRes[i].MatchString(path) {
 			return d.why
 		}
 	}
